@@ -166,7 +166,7 @@ func init() {
 }
 
 func runC20(ctx *core.Ctx) {
-	ctx.Rule("(1) same build, two routines: dispatched feMul/feSquare vs the portable feMulGeneric/feSquareGeneric on all pairs of the corner lattice L(K4) of the closed box (1024^2 pairs; quick L(K3)^2) and L(K7) for squaring: both equal math/big, both within the Multiply representation bound (limb equality is reported, not required); (2) two builds: the quick enumerations of C01,C02,C04-C10,C13,C16,C17 are run by a binary built from the same tree with -tags purego and by the default binary; each must be violation-free against math/big and the order-independent digests of all value-level observations must agree; (3) dispatch is read from the binaries (go tool nm/objdump): the default build must contain the assembly feMul/feSquare with MULQ, the purego build must not. distinct_nontrivial = distinct products in (1)")
+	ctx.Rule("(1) same build, two routines: dispatched feMul/feSquare vs the portable feMulGeneric/feSquareGeneric on all pairs of the corner lattice L(K4) of the closed box (1024^2 pairs; quick L(K3)^2) and L(K7) for squaring: both equal math/big, both within the Multiply representation bound (limb equality is reported, not required); (2) two builds: the quick enumerations of C01,C02,C04-C10,C13,C16,C17 are run by a binary built from the same tree with -tags purego and by the default binary; each must be violation-free against math/big and the order-independent digests of all value-level observations must agree; (3) dispatch is read from the binaries (go tool nm/objdump): the default build must contain two assembly routines of package field with the multiply/square MULQ counts, the purego build no assembly (otherwise the run is marked not exhaustive). distinct_nontrivial = distinct products in (1)")
 	ctx.Assume("math/big is correct", "the purego binary and the default binary are built from the same working tree by ./check",
 		"limb vectors outside the closed box are outside the representation invariant and are not compared")
 	// (3) dispatch facts gathered by ./check
@@ -179,7 +179,10 @@ func runC20(ctx *core.Ctx) {
 		json.Unmarshal(b, &facts)
 		ctx.Extra("dispatch", facts)
 		if ok, _ := facts["ok"].(bool); !ok {
-			core.InternalError("C20: dispatch could not be established from the binaries: %v", facts)
+			// not an error: a tree may legitimately organise (or drop) its
+			// assembly differently; the comparison of the two builds below
+			// still decides agreement of whatever each build dispatches to
+			ctx.NotExhaustive(fmt.Sprintf("the expected dispatch (assembly multiply/square in the default build, none under purego) could not be read from the binaries: %v", facts))
 		}
 	} else {
 		core.InternalError("C20: VERIF_DISPATCH_FACTS not set (run through ./check)")
